@@ -47,9 +47,14 @@ def main():
     ap.add_argument("--props", help="comma list overriding the meta")
     ap.add_argument("--seed", help="VERIF_SEED for the checks (seed-robustness sweeps)")
     ap.add_argument("--record", default="results.json", help="file under mutants/ receiving the verdicts")
+    ap.add_argument("--shard", help="i/n: only every n-th patch starting at i (run several shards side by side, merge the records)")
     a = ap.parse_args()
     rows = []
-    for name, patch, meta in collect(a.names):
+    items = collect(a.names)
+    if a.shard:
+        i, n = (int(v) for v in a.shard.split("/"))
+        items = items[i::n]
+    for name, patch, meta in items:
         props = a.props.split(",") if a.props else meta.get("props") or re.findall(r"C\d\d", name)
         tmp = tempfile.mkdtemp(prefix="synmut_")
         try:
